@@ -739,10 +739,10 @@ int scpiLex_ArbitraryBlockProgramData(lex_state_t * state, scpi_token_t * token)
             }
 
             if (i == 0) {
-                state->pos += arbitraryBlockLength;
-                if ((state->buffer + state->len) >= (state->pos)) {
-                    token->ptr = state->pos - arbitraryBlockLength;
+                if (arbitraryBlockLength <= (state->buffer + state->len) - state->pos) {
+                    token->ptr = state->pos;
                     token->len = arbitraryBlockLength;
+                    state->pos += arbitraryBlockLength;
                     validData = 1;
                 } else {
                     validData = 0;
